@@ -108,7 +108,7 @@ Honest(onm, inm, run, pad, sid, ck, suite) ==
       enci == [sid |-> "", exts |-> EncodedExts(inn, run), ech |-> InnerEch, eoe |-> EoeList(inn, run), pad |-> pad]
       exts == [i \in 1..Len(o) |-> IF o[i].t = "sni" THEN E("sni", k.pub) ELSE o[i]]
       h0   == [sid |-> sid, exts |-> exts, eoe |-> NoEoe, pad |-> "none",
-               ech |-> [type |-> "outer", cid |-> k.cid, suite |-> suite, enc |-> [to |-> k.kid, id |-> "e1"], ct |-> ZeroCt]]
+               ech |-> [type |-> "outer", cid |-> k.cid, suite |-> suite, enc |-> [to |-> k.kid, id |-> "e1"], ct |-> ZeroCt, trail |-> FALSE]]
       ct   == [ok |-> TRUE, zero |-> FALSE, kid |-> k.kid, enc |-> "e1", suite |-> suite, info |-> k.cfg, aad |-> h0, pt |-> enci]
   IN [h0 EXCEPT !.ech.ct = ct]
 
@@ -144,7 +144,9 @@ Apply(op, h) ==
     [] op = "truncEnc"    -> [h EXCEPT !.ech.enc = [to |-> "malformed", id |-> "e4"]]
     [] op = "flipCt"      -> [h EXCEPT !.ech.ct.ok = FALSE]
     [] op = "truncCt"     -> [h EXCEPT !.ech.ct.ok = FALSE]
+    [] op = "echTrailing" -> [h EXCEPT !.ech.trail = TRUE]                                 \* bytes appended after the payload inside the ECH extension
     [] op = "wrongInfo"   -> [h EXCEPT !.ech.ct.info = "c1b"]                              \* sealed to the same key under other config bytes
+    [] op = "unlistedSuite" -> h      \* (see ApplyK: needs the client's key)
     \* -- reasons for non-acceptance (C05)
     [] op = "noEch"       -> [h EXCEPT !.exts = DropAt(x, IdxT(x, "ech")), !.ech = NoEch]
     [] op = "grease"      -> [h EXCEPT !.ech.cid = 99, !.ech.ct.ok = FALSE]
@@ -158,6 +160,13 @@ Apply(op, h) ==
     [] op = "dupEchBefore" -> LET q == IdxT(x, "ech") IN Reseal([h EXCEPT !.exts = SubSeq(x, 1, q-1) \o << E("echdup", "D") >> \o SubSeq(x, q, Len(x))], p)
     [] op = "dupEchInnerBefore" -> LET q == IdxT(x, "ech") IN Reseal([h EXCEPT !.exts = SubSeq(x, 1, q-1) \o << E("echdupi", "D") >> \o SubSeq(x, q, Len(x))], p)
     [] op = "dupEchAfter"  -> Reseal([h EXCEPT !.exts = x \o << E("echdup", "D") >>], p)
+    \* -- malformed contents of well-known extensions (outer hello / inside an authentic payload)
+    [] op = "svOdd"        -> [h EXCEPT !.exts = SetV(x, IdxT(x, "sv"), "odd")]
+    [] op = "sniNameType"  -> [h EXCEPT !.exts = SetV(x, IdxT(x, "sni"), "badtype")]
+    [] op = "sniTwoNames"  -> [h EXCEPT !.exts = SetV(x, IdxT(x, "sni"), "two")]
+    [] op = "innerSvOdd"   -> Reseal(h, [p EXCEPT !.exts = SetV(px, IdxT(px, "sv"), "odd")])
+    [] op = "innerSniNameType" -> Reseal(h, [p EXCEPT !.exts = SetV(px, IdxT(px, "sni"), "badtype")])
+    [] op = "innerTypeNo13" -> [h EXCEPT !.ech = InnerEch, !.exts = SetV(x, IdxT(x, "sv"), "12")]   \* two faults at once: still illegal
     [] op = "sniNotPublic" -> LET h1 == [h EXCEPT !.exts = SetV(x, IdxT(x, "sni"), "other")] IN Reseal(h1, p)
     [] op = "noOuterSni"  -> LET h1 == [h EXCEPT !.exts = DropAt(x, IdxT(x, "sni"))] IN Reseal(h1, p)
     \* -- illegal hellos (C04), inside an authentic payload
@@ -177,17 +186,25 @@ Apply(op, h) ==
     [] op = "eoeRefsSni"  -> LET q == IdxT(px, "sni") IN      \* legal but unusual: the inner takes the outer's server name by reference
                              Reseal(h, [p EXCEPT !.exts = SubSeq(px, 1, q-1) \o << E("eoe","E") >> \o SubSeq(px, q+1, Len(px)), !.eoe = << "sni" >>])
 
+\* a hello sealed - correctly - with an HPKE suite the config of the key does not list
+ApplyK(op, h, k) ==
+  IF op = "unlistedSuite"
+  THEN LET s2 == CHOOSE x \in Suites : x \notin k.suites
+           h1 == [h EXCEPT !.ech.suite = s2]
+       IN [h1 EXCEPT !.ech.ct = [h.ech.ct EXCEPT !.suite = s2, !.aad = Aad(h1)]]
+  ELSE Apply(op, h)
+
 NeedsEoe == {"eoeOdd", "eoeBadLen", "eoeRepeated", "eoeMissing", "eoeRefsEch", "eoeRefsEoe", "eoeTwice"}
 NeedsEoe2 == {"eoeOutOfOrder"}
 NoEoeOps == {"eoeRefsSni"}
-Tampers == {"swap1", "swapLast", "drop2", "addExt", "changeVal", "changeSid", "changeCid", "changeSuite", "otherEnc", "encToOther",
+Tampers == {"echTrailing", "swap1", "swapLast", "drop2", "addExt", "changeVal", "changeSid", "changeCid", "changeSuite", "otherEnc", "encToOther",
             "truncEnc", "flipCt", "truncCt", "wrongInfo"}
-PassOps == {"noEch", "grease", "no13", "noSv"}
+PassOps == {"noEch", "grease", "no13", "noSv", "unlistedSuite"}
 \* the alert class each illegal hello must be answered with
 ClassOf(op) ==
-  CASE op \in {"dupEchBefore", "dupEchInnerBefore", "dupEchAfter", "eoeInOuter", "innerTypeInOuter", "badEchType", "emptyEnc", "sniNotPublic", "noOuterSni", "noInnerEch", "outerTypeInInner",
+  CASE op \in {"sniNameType", "innerSniNameType", "innerTypeNo13", "dupEchBefore", "dupEchInnerBefore", "dupEchAfter", "eoeInOuter", "innerTypeInOuter", "badEchType", "emptyEnc", "sniNotPublic", "noOuterSni", "noInnerEch", "outerTypeInInner",
                "innerNo13", "innerNoSv", "nonZeroPad", "eoeOutOfOrder", "eoeRepeated", "eoeMissing", "eoeRefsEch", "eoeRefsEoe", "eoeTwice"} -> "illegal_parameter"
-    [] op \in {"eoeOdd", "eoeBadLen"} -> "decode_error"
+    [] op \in {"eoeOdd", "eoeBadLen", "svOdd", "sniTwoNames", "innerSvOdd"} -> "decode_error"
     [] OTHER -> "none"
 Faults == {op \in Ops : ClassOf(op) # "none"}
 
@@ -211,8 +228,9 @@ Init ==
   /\ (op \in NeedsEoe => run[1] # 0)
   /\ (op \in NeedsEoe2 => run[1] # 0 /\ run[2] > run[1])
   /\ (op \in NoEoeOps => run[1] = 0)
+  /\ (op = "unlistedSuite" => KeyPool(ck).suites # Suites)
   /\ keynames \in KeyLists
-  /\ hello = Apply(op, Honest(onm, inm, run, pad, sid, ck, suite))
+  /\ hello = ApplyK(op, Honest(onm, inm, run, pad, sid, ck, suite), KeyPool(ck))
   /\ pc = "outer" /\ ci = 1 /\ pt = NoRes /\ j = 1 /\ r = 1 /\ p = 1 /\ newExt = <<>> /\ eoeSeen = FALSE /\ res = NoRes
 
 HasT(h, t) == \E i \in DOMAIN h.exts : h.exts[i].t = t
@@ -229,6 +247,8 @@ StepOuter ==
   /\ pc = "outer"
   /\ IF op = "structOuter" THEN res' = [kind |-> "noaccept"] /\ pc' = "done" /\ UNCHANGED ci   \* damaged in transit: the AAD cannot match
      ELSE IF op = "structInner" THEN res' = [kind |-> "any"] /\ pc' = "done" /\ UNCHANGED ci   \* only totality is specified
+     ELSE IF ValOf(hello, "sv") = "odd" \/ ValOf(hello, "sni") = "two" THEN Abort("decode_error") /\ UNCHANGED <<ci>>            \* client_hello.go parseExtensions
+     ELSE IF ValOf(hello, "sni") = "badtype" THEN Abort("illegal_parameter") /\ UNCHANGED <<ci>>
      ELSE IF hello.ech.type = "bad" \/ HasT(hello, "echdup") \/ HasT(hello, "echdupi") THEN Abort("illegal_parameter") /\ UNCHANGED <<ci>>   \* RFC 8446 4.2: no duplicates
      ELSE IF HasT(hello, "eoe") THEN Abort("illegal_parameter") /\ UNCHANGED <<ci>>
      ELSE IF Keys # <<>> /\ hello.ech.type = "inner" THEN Abort("illegal_parameter") /\ UNCHANGED <<ci>>
@@ -252,7 +272,9 @@ StepCand ==
 \* ech.go:237-253 + client_hello.go padding rule
 StepDecode ==
   /\ pc = "decode"
-  /\ IF pt.ech.type = "outer0" THEN Abort("illegal_parameter")       \* an 'outer' ECH extension inside the inner hello
+  /\ IF ValOf(pt, "sv") = "odd" THEN Abort("decode_error")
+     ELSE IF ValOf(pt, "sni") = "badtype" THEN Abort("illegal_parameter")
+     ELSE IF pt.ech.type = "outer0" THEN Abort("illegal_parameter")       \* an 'outer' ECH extension inside the inner hello
      ELSE IF pt.ech.type # "inner" THEN Abort("illegal_parameter")
      ELSE IF pt.pad = "nonzero" THEN Abort("illegal_parameter")
      ELSE pc' = "splice" /\ UNCHANGED res
